@@ -4,16 +4,41 @@ from __future__ import annotations
 import string
 
 from harness import common as C
+from harness import c13_names as NM
 
 META = {
     "id": "C13",
-    "technique": "Coq proof (registry: reflection over translator-generated tables; INI: induction over text of a model of write_project's renderer and of configparser's reader) + extracted-model correspondence with pio.py and with CPython configparser + configparser read-back oracle",
-    "level_text": "Theorems C13_* (coq/Props/C13.v) are proved for all strings about a Gallina model of validate_platform_board/write_project (tables and the PIO_INI template regenerated from pio.py on every run) and of configparser.ConfigParser(interpolation=None); the round trip is proved inside an explicit guard (no line break, no blank padding, library names not starting with # or ;) and refuted outside it by the three listed findings; the model is run against the real functions on (registry+near-miss)^2, generated project configurations, and - model-vs-implementation only - hostile configurations and INI texts outside the guard.",
+    "technique": "Coq proof (registry: reflection over translator-generated tables; INI: induction over text of a model of write_project's renderer and of configparser's reader) + near-miss names: for any normaliser separating the registered ids, lookup through a keyed index is exact iff no id has a twin, and the code refuses every twin; source inventory of pio.py regenerated per run) + extracted-model correspondence with pio.py and with CPython configparser + property oracles (verdict = registered for exactly that platform over near-miss families; configparser read-back; byte snapshot of project, current directory, HOME and siblings)",
+    "level_text": "Theorems C13_* (coq/Props/C13.v) are proved for all strings about a Gallina model of validate_platform_board/write_project (tables and the PIO_INI template regenerated from pio.py on every run) and of configparser.ConfigParser(interpolation=None); the round trip is proved inside an explicit guard (no line break, no blank padding, library names not starting with # or ;) and refuted outside it by the three listed findings; near-miss names (twins of a registered id under _sanitize_env_name, case folding, strip, separator dropping) are proved refused, never written, and shown to be exactly what separates the code from validation through a keyed index (C13_keyed_validation_exact_iff_no_twin, C13_keyed_validation_refuted); C13_source_inventory ties the model's claim 'validation reads SUPPORTED_PLATFORMS and BOARD_TO_PLATFORM only, the module holds no other table' to the byte code and module dict of the current pio.py; the model is run against the real functions on (registry+near-miss)^2 with nine near-miss families per registered id, strings harvested from the module itself, generated project configurations, and - model-vs-implementation only - hostile configurations and INI texts outside the guard.",
     "level_note": "Trusted: Coq kernel, translator gen_tables.py, extraction (ExtrOcamlBasic), OCaml driver, CPython configparser(interpolation=None) as 'a standard INI parser'. The theorems are about the model; the correspondence check bounds its distance from pio.py.",
     "design_ref": "DESIGN.md section 4 C13, Appendix A.6",
 }
 
 PRINTABLE = string.ascii_letters + string.digits + "/._-:=#;[]%$ \\é√"
+# every printable ASCII character (braces, quotes, shell and format metacharacters included) and printable
+# non-ASCII ones: Latin-1, Greek, Cyrillic, CJK, a combining mark, a right-to-left letter, astral-plane symbols
+PRINTABLE_WIDE = "".join(chr(c) for c in range(0x20, 0x7F)) + "\u00e9\u00df\u00b5\u03a9\u0416\u6f22\u5b57\u0301\u05d0\u221a\U0001f600\U00010348"
+
+# ports that mean something to pyserial / PlatformIO / a shell / str.format / pathlib / int()
+PORT_POOL = ["COM3", "/dev/ttyUSB0", "/dev/cu.usbmodem1101", "", "a b", "x = y", "#1", ";", "[p]", "%(x)s", "p:1", "/dev/", "COM3/", "=",
+             "a  b", "\u00e9", "com3", "COM10", "\\\\.\\COM10", "rfc2217://192.168.1.20:4000", "socket://localhost:7777", "loop://",
+             "hwgrep://0403:6001", "/dev//ttyUSB0", "./ttyV0", "/dev/./ttyS0", "/dev/pts/", "~/tty", "../x", "C:\\dev\\x", "/dev/tty.usb*",
+             "/dev/ttyUSB?", "{port}", "{0}", "{}", "{board}", "{{x}}", "}{", "%s", "%d", "%%", "%(board)s", "${sysenv.PORT}", "$PORT",
+             "$(tty)", "`tty`", "a'b", 'a"b', '"COM3"', "'COM3'", "a,b", "a;b", "a#b", "a ;b", "a #b", "x\\n", "\\t", "0", "007", "1e3",
+             "-1", "0x10", "True", "none", "None", "yes", "on", "192.168.0.7", "192.168.0.7:23", "[::1]:23", "board = zz", "upload_port = x",
+             "lib_deps =", "[env:x]", "\U0001f600", "\u6f22\u5b57", "e\u0301", "\u05d0\u05d1", "A" * 300, "/dev/" + "x" * 120,
+             "a" * 79 + " " + "b" * 79, "x=", "=x", ":x", "x:", "x]", "[x", "-", "--port", "-p COM3", "@", "!", "&", "|", "<", ">", "(", ")", "*", "?", "^", "+", "~"]
+
+LIB_POOL = ["Servo", "LiquidCrystal", "LiquidCrystal_I2C", "", "a b", "x=y", "arduino-libraries/Servo@^1.2.1", "\u00e9", "[z]", "Servo",
+            "servo", "SERVO", "Servo2", "a  b", "Serv", "ervo", "Servo@1.2.3", "Servo @ 1.2.3", "https://github.com/x/y.git#v1",
+            "symlink://../lib", "file:///tmp/lib", "{lib}", "{0}", "{}", "%s", "%(x)s", "${x}", "a;b", "a #b", "a ;b", "x:y", "lib_deps = q",
+            "lib_deps", "[env:x]", "board = zz", "e\u0301", "\u00e9", "\U0001f600", "\u6f22\u5b57", "a,b", "a, b", "A" * 200, "0", "None",
+            "-", "=", ":", "]", "'Servo'", '"Servo"', "Servo\\", "~lib", "*", "Wire", "SPI", "wire"]
+
+SRC_POOL = ["", "void setup(){}\nvoid loop(){}\n", "// \u00e9 \u00fc \u221a \u6f22\u5b57\r\nint x;\n", "\n\n  \n", "[env:x]\nboard = y\n",
+            "int x;", "int x;\n\n\n", " \tint x;\t \n", "\r", "\r\n", "a\rb\r", "\x0c\x0b\x1c", "x\x00y", "\ufeffint x;\n", "int x;\ufeff",
+            "// \U0001f600 \U00010348\n", "e\u0301 \u00e9\n", "\u2028\u2029\x85", "{} {0} {port} %s %(x)s ${x} \\n \\\\", "#include <Servo.h>\n" * 400,
+            "x" * 70000, "\u6f22" * 9000, "\n" * 5000, "a\n" * 3 + "b", "\\", "'\"'", "\t"]
 
 
 def near_misses(name: str):
@@ -44,19 +69,23 @@ def expected_parsed(pl, b, port, libs):
 
 def check_write(ctx, case, res):
     """Property oracle on the real write_project + configparser read-back."""
-    _, src, port, pl, b, libs, pre = case
+    _, src, port, pl, b, libs, pre = case[:7]
     if res["status"] != "ok":
         ctx.fail(f"write_project raised {res} for a registered pair", case, "project written", res, key="write-raised")
         return
     if not res["main_equal"]:
         ctx.fail("src/main.cpp is not the given source verbatim", case, "bytes equal", "differ", key="main-bytes")
-    allowed = {"proj/", "proj/src/", "proj/src/main.cpp", "proj/platformio.ini"}
-    if any(e not in allowed for e in res["new_entries"]) or res["removed_entries"] or not res["outside_ok"]:
-        ctx.fail("write_project touched something outside the project files", case, sorted(allowed), res["new_entries"] + res["removed_entries"], key="outside")
+    # the statement: "touches nothing outside the project directory" - entries inside it, and the missing
+    # ancestors mkdir has to create on the way down to it, are not outside
+    proj = res.get("proj_rel", "proj/")
+    inside = lambda e: e.startswith(proj) or proj.startswith(e)
+    stray = [e for e in res["new_entries"] + res["removed_entries"] if not inside(e)] + list(res.get("changed_outside", []))
+    if stray or not res["outside_ok"]:
+        ctx.fail("write_project touched something outside the project directory", case, "only entries under " + proj, sorted(set(stray)), key="outside")
     parsed = res["parsed"]
     want, uniq = expected_parsed(pl, b, port, libs)
     secs = [s for s in parsed if s != "DEFAULT"]
-    ok = len(secs) == 1 and secs[0].startswith("env:") and "DEFAULT" not in parsed
+    ok = len(secs) == 1 and secs[0].startswith("env:") and "DEFAULT" not in parsed and "__error__" not in parsed
     got = dict(parsed[secs[0]]) if ok else None
     if ok:
         got_libs = [l for l in got.pop("lib_deps", "").split("\n") if l != ""]
@@ -66,8 +95,87 @@ def check_write(ctx, case, res):
                  {"section": "env:*", **want, "lib_deps": uniq}, parsed, key="ini-readback")
 
 
+def check_write_invalid(ctx, case, res):
+    """an unregistered pair: ValueError, and not a byte of the tree changed"""
+    if res["status"] != "ValueError" or not res.get("tree_unchanged"):
+        seen = {"status": res["status"]}
+        if res["status"] == "ok":
+            seen["platformio.ini"] = res.get("ini")
+        else:
+            seen.update({k: v for k, v in res.items() if k != "status"})
+        ctx.fail("write_project with an unregistered (platform, board) pair did not raise ValueError before writing", case,
+                 "ValueError, nothing written", seen, key="write-invalid")
+
+
+def validate_stream(ctx, stream, vcases, plats, families=None):
+    """one stream of (platform, board) cases through validate_platform_board: property oracle on the implementation
+    (verdict == registered for exactly that platform) and correspondence with the extracted model (verdict and error
+    kind).  The model also answers what the four keyed variants of Tool/NearMiss.v would do, which measures how many
+    cases separate exact lookup from lookup through an index keyed by a normalised name."""
+    impl = C.run_impl("c13_impl.py", {"cases": vcases})
+    model = ctx.model([[6, c[1], c[2]] for c in vcases]) if ctx.exe else [None] * len(vcases)
+    st = {"cases": len(vcases), "accepted": 0, "outcomes": {}, "separating": {"env_name": 0, "case_fold": 0, "strip": 0, "squash": 0},
+          "nontrivial": set()}
+    owners_of = {}
+    for p, bs in plats.items():
+        for b in bs:
+            owners_of.setdefault(b, []).append(p)
+    for c, r, m in zip(vcases, impl, model):
+        pl, b = c[1], c[2]
+        should = owners_of.get(b) == [pl]
+        accepted = r[0] == "ok"
+        st["accepted"] += accepted
+        k = r[0] + (":" + str(r[1]) if r[0] == "ValueError" else "")
+        st["outcomes"][k] = st["outcomes"].get(k, 0) + 1
+        if accepted or (r[0] == "ValueError" and r[1] in (2, 3)):
+            st["nontrivial"].add((pl, b))
+        if r[0] == "Other":
+            ctx.fail(f"validate_platform_board raised {r[1]} (not ValueError)", c, "ok or ValueError", r, key="validate-exc")
+        elif accepted != should:
+            why = ""
+            if families is not None:
+                fam = families[0].get(b) or families[1].get(pl)
+                if fam:
+                    why = f" [{stream}: {fam[0]} variant of {fam[1]!r}]"
+            ctx.fail("validate_platform_board verdict differs from 'registered for exactly that platform'" + why, c,
+                     "accept" if should else "ValueError", r, key="validate-verdict")
+        if m is not None:
+            mv = m[1]
+            if (mv == 0) != accepted or (not accepted and r[0] == "ValueError" and r[1] != 0 and mv != r[1]):
+                ctx.disagree(f"validate ({stream}): model vs implementation", c, m, r)
+            for name, kv in zip(("env_name", "case_fold", "strip", "squash"), m[2:6]):
+                st["separating"][name] += kv != mv
+    return st
+
+
+def run_impl_cases(cases, jobs=12):
+    """C.run_impl on slices of the case list in parallel subprocesses (every case is independent: own temp dir)"""
+    import concurrent.futures
+    if len(cases) < 64:
+        return C.run_impl("c13_impl.py", {"cases": cases})
+    n = (len(cases) + jobs - 1) // jobs
+    parts = [cases[i:i + n] for i in range(0, len(cases), n)]
+    with concurrent.futures.ThreadPoolExecutor(len(parts)) as ex:
+        outs = list(ex.map(lambda part: C.run_impl("c13_impl.py", {"cases": part}), parts))
+    return [r for o in outs for r in o]
+
+
+def simplicity(f):
+    """replays: plain short ASCII cases first (the order of the failures list decides which case is written out)"""
+    text = repr(f.get("case"))
+    return (sum(1 for ch in text if not (" " <= ch <= "~")) + text.count("\\"), len(text))
+
+
 def run(ctx: C.Ctx):
+    import time
     rng = ctx.rng
+    t0 = time.time()
+    phase = {}
+
+    def lap(name):
+        nonlocal t0
+        phase[name] = round(time.time() - t0, 2)
+        t0 = time.time()
     thorough = ctx.tier == "thorough"
     reg = C.run_impl("c13_impl.py", {"cases": [["registry"]]})[0]
     plats = reg["platforms"]
@@ -89,64 +197,156 @@ def run(ctx: C.Ctx):
     pcands = sorted(set(pcands))
     bcands = sorted(set(bcands))
     vcases = [["validate", p, b] for p in pcands for b in bcands]
-    impl = C.run_impl("c13_impl.py", {"cases": vcases})
-    n_accept = 0
-    kinds = {}
-    model = ctx.model([[0, c[1], c[2]] for c in vcases]) if ctx.exe else [None] * len(vcases)
-    for c, r, m in zip(vcases, impl, model):
-        pl, b = c[1], c[2]
-        should = b in plats.get(pl, ()) and sum(1 for bs in plats.values() if b in bs) == 1
-        accepted = r[0] == "ok"
-        n_accept += accepted
-        kinds[r[0] + (":" + str(r[1]) if r[0] == "ValueError" else "")] = kinds.get(r[0] + (":" + str(r[1]) if r[0] == "ValueError" else ""), 0) + 1
-        if r[0] == "Other":
-            ctx.fail(f"validate_platform_board raised {r[1]} (not ValueError)", c, "ok or ValueError", r, key="validate-exc")
-        elif accepted != should:
-            ctx.fail("validate_platform_board verdict differs from 'registered for exactly that platform'", c,
-                     "accept" if should else "ValueError", r, key="validate-verdict")
-        if m is not None:
-            m_acc = m == [0]
-            if m_acc != accepted or (not accepted and r[0] == "ValueError" and r[1] != 0 and m[1] != r[1]):
-                ctx.disagree("validate: model vs implementation", c, m, r)
+    vstat = validate_stream(ctx, "registry x simple near-misses", vcases, plats)
 
+    lap("validate: registry x simple near-misses")
+    # ---------------- near-miss names, by the loosening of the lookup they would slip through (harness/c13_names.py)
+    # boards: every family for every registered id, against every real platform ...
+    fam_count = {}
+    board_nm = {}                      # name -> (family, the id it was derived from)
+    for rnd in range(5 if thorough else 1):
+        for b in all_boards:
+            for fam, vs in NM.near_miss_names(b, rng).items():
+                for v in vs:
+                    if v not in board_nm:
+                        board_nm[v] = (fam, b)
+                        fam_count["board:" + fam] = fam_count.get("board:" + fam, 0) + 1
+    plat_nm = {}
+    for rnd in range(5 if thorough else 1):
+        for pname in plats:
+            for fam, vs in NM.near_miss_names(pname, rng).items():
+                for v in vs:
+                    if v not in plat_nm:
+                        plat_nm[v] = (fam, pname)
+                        fam_count["platform:" + fam] = fam_count.get("platform:" + fam, 0) + 1
+    ncases = [["validate", p, v] for v in sorted(board_nm) for p in plats]
+    # ... platform near-misses against registered boards of both platforms and against board near-misses ...
+    some_boards = [rng.choice(sorted(bs)) for bs in plats.values() for _ in range(12 if thorough else 5)]
+    some_nm = rng.sample(sorted(board_nm), 60 if thorough else 12)
+    ncases += [["validate", v, b] for v in sorted(plat_nm) for b in some_boards + some_nm]
+    # ... each kind of name in the other position (platform near-misses as boards, board near-misses as platforms) ...
+    ncases += [["validate", p, v] for v in sorted(plat_nm) for p in plats]
+    ncases += [["validate", v, b] for v in rng.sample(sorted(board_nm), 3000 if thorough else 600) for b in some_boards[:2]]
+    # ... and near-miss x near-miss
+    pn_sample = rng.sample(sorted(plat_nm), min(len(plat_nm), 40 if thorough else 8))
+    ncases += [["validate", p, v] for v in rng.sample(sorted(board_nm), 20000 if thorough else 1500) for p in pn_sample[:(8 if thorough else 4)]]
+    nstat = validate_stream(ctx, "near-miss families", ncases, plats, families=(board_nm, plat_nm))
+
+    lap("validate: near-miss families")
+    # ---------------- names the module itself knows: members of every module-level container of pio.py and the
+    # string constants of its source (an alias table, a second index, a default name would be found here)
+    harvested = C.run_impl("c13_impl.py", {"cases": [["harvest"]]})[0]
+    hnames = sorted({h[0] for h in harvested})
+    hcases = [["validate", p, h] for h in hnames for p in plats]
+    hcases += [["validate", h, b] for h in hnames if h not in plats for b in some_boards[:4]]
+    hstat = validate_stream(ctx, "strings harvested from pio.py", hcases, plats)
+    n_hv_unreg = len([h for h in hnames if h not in all_boards and h not in plats])
+
+    lap("validate: harvested strings")
     # ---------------- cases for write_project (inside the guard)
     wcases = []
-    pairs = [(p, b) for p, bs in plats.items() for b in bs]
-    n_w = 600 if thorough else 150
-    libpool = ["Servo", "LiquidCrystal", "LiquidCrystal_I2C", "", "a b", "x=y", "arduino-libraries/Servo@^1.2.1", "é", "[z]", "Servo", "servo", "SERVO", "Servo2", "a  b"]
-    srcpool = ["", "void setup(){}\nvoid loop(){}\n", "// é ü √ 漢字\r\nint x;\n", "\n\n  \n", "[env:x]\nboard = y\n"]
+    pairs = [(p, b) for p, bs in plats.items() for b in sorted(bs)]
+    n_w = 2000 if thorough else 260
+    libpool = LIB_POOL
+    srcpool = SRC_POOL
+
+    def some_port():
+        r = rng.random()
+        if r < 0.55:
+            return rng.choice(PORT_POOL)
+        return gen_text(rng, PRINTABLE if r < 0.75 else PRINTABLE_WIDE, 12 if r < 0.95 else 200)
+
+    def some_libs():
+        r = rng.random()
+        if r < 0.12:
+            return None
+        if r < 0.2:       # a long list with few distinct names: repeats far apart
+            base = rng.sample(libpool, 4)
+            return [rng.choice(base) for _ in range(rng.randint(8, 40))]
+        return [rng.choice(libpool) if rng.random() < 0.7 else gen_text(rng, PRINTABLE_WIDE, 8) for _ in range(rng.randint(0, 6))]
+
+    def guard(port, libs):
+        if not in_guard_port(port):
+            port = "".join(c for c in port if c.isprintable()).strip()
+        if libs is not None:
+            libs = [n if in_guard_lib(n) else "".join(c for c in n if c.isprintable()).strip().lstrip("#;").strip() for n in libs]
+        return port, libs
+
     for i in range(n_w):
         pl, b = pairs[i % len(pairs)] if i < 40 else rng.choice(pairs)
-        port = rng.choice(["COM3", "/dev/ttyUSB0", "/dev/cu.usbmodem1101", "", "a b", "x = y", "#1", ";", "[p]", "%(x)s", "p:1", "/dev/", "COM3/", "=", "a  b", "é"]) if rng.random() < 0.5 else gen_text(rng, PRINTABLE, 12)
-        libs = None if rng.random() < 0.15 else [rng.choice(libpool) if rng.random() < 0.7 else gen_text(rng, PRINTABLE, 8) for _ in range(rng.randint(0, 5))]
-        if not in_guard_port(port):
-            port = port.strip()
-        if libs is not None:
-            libs = [n if in_guard_lib(n) else n.strip().lstrip("#;").strip() for n in libs]
-        src = rng.choice(srcpool) if rng.random() < 0.7 else gen_text(rng, PRINTABLE + "\n\t{}", 60)
+        port, libs = guard(some_port(), some_libs())
+        src = rng.choice(srcpool) if rng.random() < 0.7 else gen_text(rng, PRINTABLE_WIDE + "\n\t\r", 60)
         r = rng.random()
         pre = r < 0.2
         if 0.2 <= r < 0.5:
             # an earlier write_project into the same directory with a related source / configuration
             variants = [src, src.replace("\r\n", "\n").replace("\n", "\r\n"), src.replace("\r\n", "\n"), src.replace("\n", "\r"),
-                        src + "\n", src.rstrip(), src.upper(), src + " ", "\ufeff" + src, src[:-1]]
-            pre = ["prior", rng.choice(variants), rng.choice([port, "COM9", port + "0"]).strip(), rng.choice([libs, ["Servo"], None, []])]
-        wcases.append(["write", src, port, pl, b, libs, pre])
-    # invalid pairs must write nothing
-    bad_pairs = [("atmelavr", "nano_every"), ("atmelmegaavr", "uno"), ("x", "uno"), ("atmelavr", "zz")]
-    wbad = [["write", "int x;", "COM1", p, b, ["Servo"], False] for p, b in bad_pairs]
-    wres = C.run_impl("c13_impl.py", {"cases": wcases + wbad})
+                        src + "\n", src.rstrip(), src.upper(), src + " ", "\ufeff" + src, src[:-1], src + src, src + "x" * 50]
+            pre = ["prior", rng.choice(variants), rng.choice([port, "COM9", port + "0", port + "/dev/ttyUSB0" * 3]).strip(),
+                   rng.choice([libs, ["Servo"], None, [], (libs or []) + ["Extra", "More"]])]
+            if rng.random() < 0.4:     # ... generated for another registered board (longer / shorter names, another platform)
+                pre += list(rng.choice(pairs))
+        wcases.append(["write", src, port, pl, b, libs, pre, rng.choice([0, 0, 1, 2, 3, 4])])
+    # every registered pair is written at least once (env-name sanitising and the ini for every board id)
+    for i, (pl, b) in enumerate(pairs):
+        port, libs = guard(PORT_POOL[i % len(PORT_POOL)], [LIB_POOL[(i + j) % len(LIB_POOL)] for j in range(i % 4)])
+        wcases.append(["write", SRC_POOL[i % 19], port, pl, b, libs, False, 0])
+    # degenerate sources onto every kind of earlier state (nothing / foreign files / an earlier project with a longer,
+    # an equal-length and a shorter source): "always writes the given source", also when it is empty or blank
+    n_degenerate = 0
+    for src in ["", "\n", " ", "\x00", "\r\n", "x"]:
+        for pre in [False, True, ["prior", "int old_source = 1;\n", "COM3", ["Servo"]], ["prior", (src + "y")[:max(len(src), 1)], "COM3", None],
+                    ["prior", src, "COM3", None], ["prior", "", "COM3", None]]:
+            wcases.append(["write", src, "COM3", "atmelavr", "uno", None, pre, 0])
+            n_degenerate += 1
+    # library lists exhaustively over a boundary alphabet: a name, another, the empty entry, a superstring of the
+    # first, its case variant (every order, every repeat pattern up to the length bound)
+    alpha = ["Servo", "Wire", "", "Servo2", "servo"]
+    import itertools
+    for n in range(0, 7 if thorough else 5):
+        for combo in itertools.product(alpha, repeat=n):
+            wcases.append(["write", "int x;", "COM3", "atmelavr", "uno", list(combo), False, 0])
+    n_exh = sum(len(alpha) ** n for n in range(0, 7 if thorough else 5))
+
+    # unregistered pairs must write nothing: fixed ones, then near-miss names in board and platform position
+    # (fresh directory, or on top of a project generated earlier for the registered twin - which must stay as it was)
+    bad = [("atmelavr", "nano_every"), ("atmelmegaavr", "uno"), ("x", "uno"), ("atmelavr", "zz")]
+    twinish = [v for v in sorted(board_nm) if board_nm[v][0] in NM.TWIN_FAMILIES + ("unicode",)]
+    for v in rng.sample(twinish, 5000 if thorough else 420) + rng.sample(sorted(board_nm), 3000 if thorough else 240):
+        home = board_nm[v][1]
+        owner = next(p for p, bs in plats.items() if home in bs)
+        bad.append((owner if rng.random() < 0.85 else rng.choice(list(plats)), v))
+    for v in rng.sample(sorted(plat_nm), 200 if thorough else 60):
+        bad.append((v, rng.choice(sorted(plats[plat_nm[v][1]]))))
+    bad += [(p, h) for h in hnames for p in plats]
+    bad = [(p, b) for p, b in bad if not (b in plats.get(p, ()))]
+    wbad = []
+    for i, (p, b) in enumerate(bad):
+        pre = False
+        if i % 3 == 1:
+            pre = True
+        elif i % 3 == 2:
+            pre = ["prior", "int y;", "COM7", ["Servo"]] + list(rng.choice(pairs))
+        wbad.append(["write", "int x;", rng.choice(["COM1", "/dev/ttyUSB0"]), p, b, rng.choice([["Servo"], None, ["a", "b"]]), pre, i % 5])
+    wres = run_impl_cases(wcases + wbad)
     for c, r in zip(wcases, wres):
         check_write(ctx, c, r)
     for c, r in zip(wbad, wres[len(wcases):]):
-        if r["status"] != "ValueError" or not r.get("tree_unchanged"):
-            ctx.fail("write_project with an invalid pair did not raise ValueError before writing", c, "ValueError, nothing written", r, key="write-invalid")
+        check_write_invalid(ctx, c, r)
+    if ctx.exe:
+        mb = ctx.model([[1, c[2], c[3], c[4], list(c[5] or [])] for c in wbad])
+        for c, r, m in zip(wbad, wres[len(wcases):], mb):
+            if m[0] != 1 or (r["status"] == "ValueError" and r.get("kind") not in (0, m[1])) or r["status"] != "ValueError":
+                ctx.disagree("write_project on an unregistered pair: model vs implementation", c, m, {k: r.get(k) for k in ("status", "kind")})
 
+    lap("write_project: implementation runs + oracles")
     # ---------------- model correspondence for the INI renderer (if the model has it)
     n_ini = ini_correspondence(ctx, wcases, wres)
+    lap("write_project: model correspondence")
     # ---------------- the model on its whole domain (outside the guard: correspondence only, no oracle)
     ini_dist = ini_model_validation(ctx, pairs, all_boards)
     n_extra = sum(ini_dist.get(k, 0) for k in ("hostile_write_cases", "reader_texts", "libsec_cases", "envname_cases"))
+    lap("model on its whole domain (outside the guard)")
 
     # ---------------- known findings: replay the listed witnesses
     for f in ctx.findings:
@@ -161,17 +361,32 @@ def run(ctx: C.Ctx):
         if probe.failures:
             ctx.known(f"{f['id']}: {f['what']}")
 
+    streams = {"registry x simple near-misses": vstat, "near-miss families": nstat, "strings harvested from pio.py": hstat}
+    nontrivial = set().union(*(st.pop("nontrivial") for st in streams.values()))
+    n_validate = sum(st["cases"] for st in streams.values())
     ctx.coverage.update({
-        "evaluations": len(vcases) + len(wcases) + len(wbad) + n_extra,
-        "distinct_nontrivial": len({(c[1], c[2]) for c, r in zip(vcases, impl) if r[0] == "ok" or (r[0] == "ValueError" and r[1] in (2, 3))}) + len({repr(c) for c in wcases}),
-        "rule": "validate: (platforms+near-miss+sampled board names) x (all registered boards+near-miss names), distinct non-trivial = accepted, unknown-board or mismatched pairs (unknown-platform rejections counted trivial); write_project: seeded configurations inside the guard (printable port without blank padding; library names without blank padding / comment prefix; duplicates and empties included), all distinct - these feed the property oracle AND the model correspondence (file text, configparser tables in order); model-only streams (never the oracle): write_project with hostile ports/libraries outside the guard (exhaustive singles and pairs over a boundary alphabet of blanks, line breaks, comment prefixes, delimiters, brackets, header/option look-alikes, then seeded), the reader alone on structured random INI texts, _format_lib_section and _sanitize_env_name on generated inputs (not counted in distinct_nontrivial)",
-        "samples": [vcases[0], vcases[len(vcases) // 2], wcases[0], wcases[-1]],
-        "distribution": {"validate_cases": len(vcases), "validate_outcomes": kinds, "accepted": n_accept,
-                         "write_cases": len(wcases), "write_invalid_pairs": len(wbad), "ini_model_cases": n_ini,
+        "evaluations": n_validate + len(wcases) + len(wbad) + n_extra,
+        "distinct_nontrivial": len(nontrivial) + len({repr(c) for c in wcases}) + len({(c[3], c[4]) for c in wbad}),
+        "rule": "validate: (1) (platforms+near-miss+sampled board names) x (all registered boards+simple near-miss names); (2) near-miss families of harness/c13_names.py - for EVERY registered id: separator runs replaced/inserted/dropped, case variants, blank/control/invisible padding, Unicode compatibility forms / case-folding specials / foreign digits / homoglyphs / combining marks, version-path-key-quote decorations, glob-regex-LIKE metacharacters, every proper prefix and suffix, single edits, digit-run changes - each against every real platform; the same families of every platform name against boards of both platforms and against board near-misses; near-miss x near-miss samples; (3) every string held by a module-level container of pio.py or occurring as a constant in its source, in both positions.  Distinct non-trivial = accepted, unknown-board or mismatched pairs (unknown-platform rejections counted trivial).  All three streams feed the property oracle AND the model correspondence (verdict and error kind); 'separating' counts, per normaliser of Tool/NearMiss.v, the cases on which the extracted keyed-index variant answers differently from the model of the code.  write_project: seeded configurations inside the guard (ports from a pool of pyserial URLs, Windows/Unix device paths, format/shell/INI metacharacters, numerals and booleans, 300-character names, then random printable ASCII and non-ASCII incl. astral; library lists from a pool incl. superstrings, case variants, URLs, format fields, long lists with far-apart repeats; sources incl. NUL, BOM, CR-only, astral, 70 kB), 30 % onto an earlier project (related source, longer/shorter configuration, another board), project directory spelled absolute / relative to the current directory / not normalised / under missing non-ASCII ancestors; every registered pair written once; empty / blank / one-character sources onto six kinds of earlier directory state; library lists exhaustively over {name, other, '', superstring, case variant} up to the length bound; unregistered pairs (near-miss boards for their twin's platform, near-miss platforms, harvested strings) must raise ValueError and leave every byte of the watched tree (project, current directory, HOME, siblings) as it was.  Model-only streams (never the oracle): write_project with hostile ports/libraries outside the guard, the reader alone on structured random INI texts, _format_lib_section and _sanitize_env_name on generated inputs (not counted in distinct_nontrivial)",
+        "samples": [vcases[len(vcases) // 2], ncases[len(ncases) // 3], ncases[len(ncases) // 2], ncases[-1], hcases[len(hcases) // 2]]
+                   + [c for c in wcases[:n_w] if len(repr(c)) < 300 and isinstance(c[6], list)][:2]
+                   + [c for c in wcases[:n_w] if len(repr(c)) < 300 and c[7] != 0][:1] + [wcases[n_w + 3], wcases[-7], wbad[5], wbad[-1]],
+        "distribution": {"validate_cases": n_validate, "validate_streams": streams,
+                         "near_miss_names_per_family": fam_count,
+                         "near_miss_board_names": len(board_nm), "near_miss_platform_names": len(plat_nm),
+                         "harvested_strings": len(hnames), "harvested_not_registered": n_hv_unreg,
+                         "write_cases": len(wcases), "write_random": n_w, "write_every_registered_pair": len(pairs),
+                         "write_exhaustive_lib_lists": n_exh, "write_degenerate_sources_x_earlier_states": n_degenerate, "write_invalid_pairs": len(wbad), "ini_model_cases": n_ini,
+                         "write_onto_earlier_project": sum(1 for c in wcases if isinstance(c[6], list)),
+                         "write_dir_forms": {str(k): sum(1 for c in wcases if c[7] == k) for k in range(5)},
+                         "ports_non_ascii": sum(1 for c in wcases if not c[2].isascii()),
+                         "ports_with_format_or_shell_meta": sum(1 for c in wcases if any(ch in c[2] for ch in "{}%$`*?~")),
+                         "sources_over_10kB": sum(1 for c in wcases if len(c[1]) > 10000),
                          "platform_candidates": len(pcands), "board_candidates": len(bcands),
                          "lib_lists_with_duplicates": sum(1 for c in wcases if c[5] and len(set(c[5])) < len(c[5])),
                          "lib_lists_with_empties": sum(1 for c in wcases if c[5] and "" in c[5]),
-                         "ini_model_validation": ini_dist},
+                         "lib_lists_over_8": sum(1 for c in wcases if c[5] and len(c[5]) > 8),
+                         "ini_model_validation": ini_dist, "phase_seconds (informative only)": phase},
         "exhaustive": False,
         "guard": "port: str.isprintable() and no leading/trailing blank; library names: printable, no blank padding, not starting with '#' or ';' (outside: known findings F-C13-*)",
         "unmodelled": ["PlatformIO's own INI reader (configparser(interpolation=None) stands for 'a standard INI parser')",
@@ -179,10 +394,14 @@ def run(ctx: C.Ctx):
                        "str.lower() of cased non-ASCII letters in option names (model lower-cases A-Z only; such letters are kept out of generated keys; the template's keys are ASCII)",
                        "configparser exception kinds (the model has one 'read raises' outcome)",
                        "the oracle's guard is the property's 'printable' one; the theorem's guard is wider (any character but line breaks inside, no blank padding)",
-                       "file-system failures"],
+                       "file-system failures, symbolic links inside the project directory",
+                       "near-miss names are generated from fixed families (harness/c13_names.py); a loosening of the lookup that none of them anticipates is seen only through the source inventory obligation C13_source_inventory",
+                       "non-str arguments; library arguments that are not lists (the signature allows any iterable, the statement says lists)"],
         "trusted_base": C.COMMON_TRUSTED + ["harness/impl/c13_impl.py (calls pio.validate_platform_board / write_project in a scratch dir, reads back with configparser)"],
     })
-    ctx.assumptions += ["CPython configparser(interpolation=None) is the reference INI reader", "registry tables are those of the imported module (translator reads them after import)"]
+    ctx.failures.sort(key=simplicity)
+    ctx.assumptions += ["CPython configparser(interpolation=None) is the reference INI reader", "registry tables are those of the imported module (translator reads them after import)",
+                        "'registered' is membership in SUPPORTED_PLATFORMS as imported; the inventory of pio.py (names read by validate_platform_board / write_project, module-level data) is taken from byte code and module dict after import"]
 
 
 # ---------------------------------------------------------------------------
@@ -311,7 +530,7 @@ def ini_model_validation(ctx, pairs, all_boards):
     for i, (port, libs) in enumerate(confs):
         pl, b = pairs[i % len(pairs)] if i % 3 else ("atmelavr", "uno")
         wc.append(["write", "int x;", port, pl, b, libs, False])
-    wr = C.run_impl("c13_impl.py", {"cases": wc})
+    wr = run_impl_cases(wc)
     outs = ctx.model([[1, c[2], c[3], c[4], list(c[5] or [])] for c in wc])
     n_err = compare_write(ctx, "outside guard", wc, wr, outs)
     dist["hostile_write_cases"] = len(wc)
@@ -319,7 +538,7 @@ def ini_model_validation(ctx, pairs, all_boards):
     dist["hostile_write_outside_guard"] = sum(1 for c in wc if not (in_guard_port(c[2]) and all(in_guard_lib(n) for n in (c[5] or []))))
     # (b) the reader alone on INI-like texts
     texts = ini_texts(rng, 8000 if thorough else 1500)
-    rr = C.run_impl("c13_impl.py", {"cases": [["iniread", t] for t in texts]})
+    rr = run_impl_cases([["iniread", t] for t in texts])
     mo = ctx.model([[4, t] for t in texts])
     n_ok = 0
     for t, r, m in zip(texts, rr, mo):
